@@ -627,6 +627,18 @@ fn c03_gen_b(seed: u64, run: u64, thorough: bool) -> Plan {
     plan.params.insert("hostile_max".into(), r.range(50, 1500) as f64);
     plan.params.insert("hostile_big".into(), (run % 16 == 3) as u64 as f64);
     plan.params.insert("short_ch".into(), 63.0);
+    {
+        // the server application hangs up on some of its peers while the attack is on - on the
+        // attackers' connections (what comes back while the server waits for the acknowledgement
+        // is theirs to choose) and, later, on a genuine client's (drawn from a generator of its own)
+        let mut r = Rng::keyed(&[seed, run, 0xb03_d15c]);
+        for &raw in topo.raws.iter() {
+            if r.chance(0.5) {
+                let t = r.range(1_000_000, hostile_until);
+                plan.push(t, r.u32() | 1, if r.chance(0.5) { Op::Disconnect { ep: 0, to: Some(raw) } } else { Op::DisconnectNow { ep: 0, to: Some(raw) } });
+            }
+        }
+    }
     plan.end_us = horizon;
     plan.sort();
     // (no failing socket calls here: "the next n send calls fail" would hit different datagrams
@@ -1080,6 +1092,11 @@ fn c05_gen_b(seed: u64, run: u64, thorough: bool) -> Plan {
             plan.push(t + 10, 0x6000_0000, Op::Disconnect { ep, to });
         }
         plan.sort();
+    } else {
+        // nobody hangs up, nothing is lost, both applications keep stepping and the silence
+        // timeout is half an hour: nothing may end a connection while packets are waiting, so the
+        // end of a connection excuses no undelivered packet
+        plan.params.insert("connection_must_last".into(), 1.0);
     }
     plan
 }
@@ -1127,7 +1144,15 @@ fn c06_gen_sender(seed: u64, run: u64, thorough: bool) -> Plan {
         allow_stalls: true,
         phases: r.range(1, 3),
     };
-    world_a_general("C06", "a_sender_respects", seed, run, &sc, false)
+    let mut plan = world_a_general("C06", "a_sender_respects", seed, run, &sc, false);
+    // a lazy reader in a quarter of the runs: the application that embeds the half connection
+    // collects received packets only in some of its turns (complete packets wait in the receive
+    // window meanwhile and go on counting against the advertised allocation)
+    let mut r2 = Rng::keyed(&[seed, run, 0xc06_1a2]);
+    if r2.chance(0.25) {
+        plan.params.insert("hc_lazy_reader_permille".into(), *r2.pick(&[300.0, 700.0, 950.0, 995.0]));
+    }
+    plan
 }
 fn c06_gen_b(seed: u64, run: u64, thorough: bool) -> Plan {
     b_transport("C06", "b_sender_respects", seed, run, thorough, false, false, false)
@@ -1171,6 +1196,14 @@ fn c06_gen_hostile(seed: u64, run: u64, thorough: bool, flood: bool) -> Plan {
         cad.period_us = horizon / 3;
     }
     cad.flush_after_step_p = 0.0;
+    // every fourth flood: the victim takes a turn only every 2-6 s and a hundred thousand frames
+    // arrive in between (whatever bounds the queue of owed acknowledgements has to hold between
+    // two flushes as well)
+    let big_bursts = flood && run % 4 == 1;
+    if big_bursts {
+        cad.period_us = r.range(2_000_000, 6_000_000);
+        plan.params.insert("hostile_burst_max".into(), 120_000.0);
+    }
     cad.steps(&mut r, &mut plan, 0, 0, horizon, 20_000, !flood);
     let mut t = 0;
     while t < horizon {
@@ -1190,7 +1223,7 @@ fn c06_gen_hostile(seed: u64, run: u64, thorough: bool, flood: bool) -> Plan {
     // every eighth: complete one-fragment packets behind a hole, far beyond the allocation
     let singles = !flood && run % 8 == 5;
     plan.params.insert("hostile_focus".into(), if flood { 2.0 } else if tail_first { 3.0 } else if singles { 5.0 } else { 1.0 });
-    plan.params.insert("hostile_max".into(), if flood { 150_000.0 } else if singles { r.range(1000, 6000) as f64 } else { r.range(100, 3000) as f64 });
+    plan.params.insert("hostile_max".into(), if big_bursts { 500_000.0 } else if flood { 150_000.0 } else if singles { r.range(1000, 6000) as f64 } else { r.range(100, 3000) as f64 });
     plan.end_us = horizon;
     plan.sort();
     plan
@@ -1207,7 +1240,7 @@ fn c06_oracles_receiver(plan: &Plan) -> Vec<Box<dyn Oracle>> {
 fn c06_adv(plan: &Plan) -> Option<Box<dyn Adversary>> {
     let mut h = Hostile::new(plan, vec![(0, 1)]);
     if plan.param("hostile_focus", 0.0) == 2.0 {
-        h.set_rate(1.0, 40);
+        h.set_rate(1.0, plan.param("hostile_burst_max", 40.0) as u64);
     } else {
         h.set_rate(1.0, 30);
     }
@@ -2258,6 +2291,28 @@ fn c19_gen(seed: u64, run: u64, thorough: bool) -> Plan {
                 if left > 0 && r.chance(0.1) {
                     let frags = *r.pick(&[65u64, 65, 129, 64, 66]);
                     *len = ((frags - 1) * FRAG + r.range(1, FRAG)) as u32;
+                    left -= 1;
+                }
+            }
+        }
+    }
+    // every nineteenth run: endpoints configured for packets of several megabytes, and one or two
+    // of them among the first packets (assembly blocks of 2-6 MiB: whatever the allocator or the
+    // library does differently for large blocks; delivered, or dropped mid-transfer with the
+    // connection)
+    if run % 19 == 7 {
+        for e in plan.endpoints.iter_mut() {
+            if let EndpointKind::Hc { spec, .. } = &mut e.kind {
+                spec.tx_alloc_limit = spec.tx_alloc_limit.max(8_000_000);
+                spec.rx_alloc_limit = spec.rx_alloc_limit.max(8_000_000);
+                spec.tx_bandwidth_limit = spec.tx_bandwidth_limit.max(20_000_000);
+            }
+        }
+        let mut left = r.range(1, 2);
+        for t in plan.timeline.iter_mut() {
+            if let Op::Send { len, .. } = &mut t.op {
+                if left > 0 && r.chance(0.3) {
+                    *len = r.range(2_097_152 - 3000, 6_000_000) as u32;
                     left -= 1;
                 }
             }
